@@ -68,7 +68,10 @@ CallEnabled(o) ==
   /\ BuildableDeps(heap, o) \subseteq Range(called)
 
 \* the callable of o runs; a nested fdl.build inside it finds inBuild = TRUE and
-\* is rejected, which makes o's callable raise
+\* is rejected, which makes o's callable raise.  (A callable may also swallow the
+\* rejection and try again: a rejected attempt changes nothing -- in particular
+\* not the guard -- so every further attempt in the same build is rejected too;
+\* that is FlagReset evaluated in the states between the attempts.)
 Call(o) ==
   /\ phase = "build"
   /\ CallEnabled(o)
